@@ -17,8 +17,29 @@ func pick(t *rapid.T, label string, vw ...any) string {
 	return rapid.SampledFrom(vals).Draw(t, label)
 }
 
+// chance is true with roughly pct percent probability (5 % granularity). SampledFrom is close
+// to uniform in rapid, IntRange is heavily biased towards small values.
 func chance(t *rapid.T, label string, pct int) bool {
-	return rapid.IntRange(0, 99).Draw(t, label) < pct
+	k := (pct + 2) / 5
+	if k < 1 && pct > 0 {
+		k = 1
+	}
+	v := make([]bool, 20)
+	for i := 20 - k; i < 20; i++ {
+		if i >= 0 {
+			v[i] = true
+		}
+	}
+	return rapid.SampledFrom(v).Draw(t, label)
+}
+
+// between draws an int in [lo,hi] close to uniformly.
+func between(t *rapid.T, label string, lo, hi int) int {
+	v := make([]int, 0, hi-lo+1)
+	for i := lo; i <= hi; i++ {
+		v = append(v, i)
+	}
+	return rapid.SampledFrom(v).Draw(t, label)
 }
 
 func newHost(kind, name string) HostSpec {
@@ -99,7 +120,7 @@ func (g *genState) challenge(owner int, label string, standing bool) ChallengeSp
 	} else {
 		ch.Kind = pick(g.t, label+".kind", "basic", 4, "bearer", 6, "basic+bearer", 1, "bearer+basic-2h", 1, "unsupported+bearer", 1, "malformed", 2, "unsupported", 1, "empty", 1)
 	}
-	ch.Variant = rapid.IntRange(0, 23).Draw(g.t, label+".variant")
+	ch.Variant = between(g.t, label+".variant", 0, 23)
 	if ch.hasBearer() || ch.Kind == "malformed" {
 		ch.TokenHost = g.tokenHostFor(owner, label)
 		ch.RealmScheme = pick(g.t, label+".realmscheme", "", 16, "http", 1, "https", 1)
@@ -134,10 +155,10 @@ func (g *genState) standingAuth(i int, label string, pctOpen int) {
 	h.Auth.Refresh = chance(g.t, label+".refresh", 40)
 	h.Auth.Anon = chance(g.t, label+".anon", 35)
 	h.Auth.ScopeCheck = chance(g.t, label+".scopecheck", 40)
-	h.Auth.TokenField = rapid.IntRange(0, 2).Draw(g.t, label+".tokenfield")
-	h.Auth.IssuedAt = rapid.IntRange(0, 1).Draw(g.t, label+".issuedat")
+	h.Auth.TokenField = between(g.t, label+".tokenfield", 0, 2)
+	h.Auth.IssuedAt = between(g.t, label+".issuedat", 0, 1)
 	if chance(g.t, label+".changes", 15) {
-		at := rapid.IntRange(1, 8).Draw(g.t, label+".changeat")
+		at := between(g.t, label+".changeat", 1, 8)
 		alt := g.challenge(i, label+".alt", false)
 		h = &g.c.Hosts[i]
 		h.Auth.ChangeAt = at
@@ -200,10 +221,10 @@ func gen(t *rapid.T) Case {
 	c.Chunked = chance(t, "chunked", 30)
 
 	// ---- registries with credentials
-	nReg := rapid.IntRange(2, 3).Draw(t, "nreg")
+	nReg := between(t, "nreg", 2, 3)
 	hubAt := -1
 	if chance(t, "hub", 10) {
-		hubAt = rapid.IntRange(0, nReg-1).Draw(t, "hubat")
+		hubAt = between(t, "hubat", 0, nReg-1)
 	}
 	base := []string{"reg-a.example.test", "reg-b.example.test", "reg-c.internal.test"}
 	for i := 0; i < nReg; i++ {
@@ -213,9 +234,10 @@ func gen(t *rapid.T) Case {
 		}
 		h := newHost("registry", name)
 		h.Referrers = chance(t, fmt.Sprintf("reg%d.referrers", i), 50)
-		h.TagPage = rapid.SampledFrom([]int{0, 0, 0, 1, 2}).Draw(t, fmt.Sprintf("reg%d.tagpage", i))
-		h.RefPage = rapid.SampledFrom([]int{0, 0, 0, 1}).Draw(t, fmt.Sprintf("reg%d.refpage", i))
-		h.LocStyle = rapid.IntRange(0, 3).Draw(t, fmt.Sprintf("reg%d.locstyle", i))
+		h.TagPage = rapid.SampledFrom([]int{0, 0, 1, 2, 3}).Draw(t, fmt.Sprintf("reg%d.tagpage", i))
+		h.RefPage = rapid.SampledFrom([]int{0, 0, 1}).Draw(t, fmt.Sprintf("reg%d.refpage", i))
+		h.LocStyle = between(t, fmt.Sprintf("reg%d.locstyle", i), 0, 3)
+		h.LocScheme = pick(t, fmt.Sprintf("reg%d.locscheme", i), "", 10, "http", 1, "https", 1)
 		c.Hosts = append(c.Hosts, h)
 		g.clientCfg(i, fmt.Sprintf("reg%d", i), i < 2)
 	}
@@ -226,12 +248,12 @@ func gen(t *rapid.T) Case {
 		if pick(t, fmt.Sprintf("reg%d.role", i), "partner", 3, "mirror", 2) == "mirror" {
 			c.Hosts[i].MirrorOf = 0
 			c.Hosts[i].MirrorHas = chance(t, fmt.Sprintf("reg%d.mirrorhas", i), 60)
-			c.Hosts[i].Priority = rapid.IntRange(0, 3).Draw(t, fmt.Sprintf("reg%d.prio", i))
+			c.Hosts[i].Priority = between(t, fmt.Sprintf("reg%d.prio", i), 0, 3)
 			c.Hosts[0].Mirrors = append(c.Hosts[0].Mirrors, i)
 		}
 	}
 	if len(c.Hosts[0].Mirrors) > 0 {
-		c.Hosts[0].Priority = rapid.IntRange(0, 3).Draw(t, "reg0.prio")
+		c.Hosts[0].Priority = between(t, "reg0.prio", 0, 3)
 	}
 	if chance(t, "unused", 25) {
 		h := newHost("registry", "reg-u.example.test")
@@ -309,7 +331,7 @@ func gen(t *rapid.T) Case {
 	// token hosts created on the way may challenge too (rarely)
 	for i := nFixed; i < len(c.Hosts) && i < nFixed+3; i++ {
 		if chance(t, fmt.Sprintf("tok%d.extra", i), 10) {
-			c.Hosts[i].Extra = append(c.Hosts[i].Extra, Extra401{At: rapid.IntRange(0, 2).Draw(t, fmt.Sprintf("tok%d.at", i)),
+			c.Hosts[i].Extra = append(c.Hosts[i].Extra, Extra401{At: between(t, fmt.Sprintf("tok%d.at", i), 0, 2),
 				Ch: ChallengeSpec{Kind: pick(t, fmt.Sprintf("tok%d.kind", i), "basic", 1, "empty", 1), RealmFor: -1, TokenHost: i}})
 		}
 	}
@@ -322,34 +344,62 @@ func gen(t *rapid.T) Case {
 		}
 	}
 	if chance(t, "decoys", 30) || (anyDocker && chance(t, "decoys2", 30)) {
-		n := rapid.IntRange(1, 2).Draw(t, "ndecoys")
+		n := between(t, "ndecoys", 1, 2)
 		all := g.registries(true)
 		for k := 0; k < n; k++ {
 			c.Decoys = append(c.Decoys, Decoy{
 				Target: rapid.SampledFrom(all).Draw(t, fmt.Sprintf("decoy%d.target", k)),
-				Style:  rapid.IntRange(0, 2).Draw(t, fmt.Sprintf("decoy%d.style", k)),
+				Style:  between(t, fmt.Sprintf("decoy%d.style", k), 0, 2),
 				Form:   pick(t, fmt.Sprintf("decoy%d.form", k), "auth", 2, "userpass", 1, "idtoken+auth", 1),
 			})
 		}
 	}
 
 	// ---- operations
-	nOps := rapid.IntRange(1, 6).Draw(t, "nops")
+	nOps := between(t, "nops", 1, 6)
 	for k := 0; k < nOps; k++ {
 		l := fmt.Sprintf("op%d", k)
 		o := Op{Kind: pick(t, l+".kind", "bget", 4, "mget", 2, "copy", 4, "bput", 3, "tags", 3, "referrers", 2, "ping", 1, "mhead", 1, "mput", 1, "mdel", 1, "bhead", 1, "bmount", 1, "bdel", 1, "catalog", 1)}
 		o.Reg = rapid.SampledFrom(append([]int{0}, regs...)).Draw(t, l+".reg")
-		o.Repo = rapid.IntRange(0, 1).Draw(t, l+".repo")
+		o.Repo = between(t, l+".repo", 0, 1)
 		o.Tag = pick(t, l+".tag", "v1", 2, "ext", 1)
 		o.Digest = chance(t, l+".digest", 30)
 		o.Blob = rapid.SampledFrom([]int{1, 2, 0, 3, 3}).Draw(t, l+".blob")
-		o.N = rapid.IntRange(0, 5).Draw(t, l+".n")
+		o.N = between(t, l+".n", 0, 5)
 		if o.Kind == "copy" || o.Kind == "bmount" {
 			o.Tgt = rapid.SampledFrom(regs).Draw(t, l+".tgt")
-			o.TgtRepo = rapid.IntRange(0, 1).Draw(t, l+".tgtrepo")
-			o.Flags = rapid.IntRange(0, 7).Draw(t, l+".flags")
+			o.TgtRepo = between(t, l+".tgtrepo", 0, 1)
+			o.Flags = between(t, l+".flags", 0, 7)
 		}
 		c.Ops = append(c.Ops, o)
+	}
+	// operations aimed at the cross-host edges of this topology
+	for i := range c.Hosts {
+		h := &c.Hosts[i]
+		if h.Kind != "registry" || h.Unused {
+			continue
+		}
+		l := fmt.Sprintf("aim%d", i)
+		if h.RedirectTo >= 0 && chance(t, l+".redirect", 60) {
+			c.Ops = append(c.Ops, Op{Kind: "bget", Reg: i, Repo: between(t, l+".redirect.repo", 0, 1), Tag: "v1", Blob: between(t, l+".redirect.blob", 0, 2)})
+		}
+		if h.Upload >= 0 && chance(t, l+".upload", 60) {
+			c.Ops = append(c.Ops, Op{Kind: "bput", Reg: i, Repo: between(t, l+".upload.repo", 0, 1), Tag: "v1", N: between(t, l+".upload.n", 0, 5)})
+		}
+		if h.LinkTo >= 0 && chance(t, l+".link", 60) {
+			c.Ops = append(c.Ops, Op{Kind: "tags", Reg: i, Repo: between(t, l+".link.repo", 0, 1), Tag: "v1"})
+		}
+		if (len(h.Mirrors) > 0 || h.MirrorOf >= 0) && chance(t, l+".mirror", 60) {
+			c.Ops = append(c.Ops, Op{Kind: pick(t, l+".mirror.kind", "tags", 3, "referrers", 2, "mget", 1, "bget", 1), Reg: i, Repo: between(t, l+".mirror.repo", 0, 1), Tag: "v1", Blob: 1})
+		}
+	}
+	if c.extHost() >= 0 && chance(t, "aim.external", 60) {
+		r := rapid.SampledFrom(regs).Draw(t, "aim.external.reg")
+		if chance(t, "aim.external.copy", 40) {
+			c.Ops = append(c.Ops, Op{Kind: "copy", Reg: r, Repo: 0, Tag: "ext", Tgt: rapid.SampledFrom(regs).Draw(t, "aim.external.tgt"), TgtRepo: 1, Flags: 1})
+		} else {
+			c.Ops = append(c.Ops, Op{Kind: pick(t, "aim.external.kind", "bget", 3, "bhead", 1), Reg: r, Repo: between(t, "aim.external.repo", 0, 1), Tag: "ext", Blob: 3})
+		}
 	}
 	return c
 }
